@@ -4,4 +4,5 @@ set -eu
 cd "$(dirname "$0")/harness"
 export CARGO_NET_OFFLINE=true
 cargo build --profile verif --offline
+cargo build --profile verifrel --offline
 echo "setup ok"
